@@ -994,7 +994,10 @@ def check_constructor_variants(ctx):
     g = ctx.npgen(5)
     a0 = Settings.get_atol()
     variants = [("default", {}), ("eps_proj_physical=1e-3", {"eps_proj_physical": 1e-3}),
-                ("eps_proj_physical=1e-3,flag=off", {"eps_proj_physical": 1e-3, "on_para_eq_constraint": False})]
+                ("eps_proj_physical=1e-3,flag=off", {"eps_proj_physical": 1e-3, "on_para_eq_constraint": False}),
+                ("is_estimation_object=False", {"is_estimation_object": False}),
+                ("is_estimation_object=False,algo flags off", {"is_estimation_object": False, "on_algo_eq_constraint": False,
+                                                               "on_algo_ineq_constraint": False})]
     for bname in ("1qubit", "qutrit"):
         c, B = csys(bname)
         d = c.dim
@@ -1049,6 +1052,57 @@ def check_constructor_variants(ctx):
                                     f"{bname} {kind}-violation {viol:g} at default atol {a0:g}, {vname}: raised={raised}", rep)
 
 
+def check_global_independence(ctx):
+    """a verdict called with an explicit tolerance is the same whatever the global Settings atol is; checked on structured objects
+    that have small but non-zero parameters / operator entries (near-identity rotations, slightly non-CP amplifications, nearly pure
+    states, nearly projective POVMs) and against the definition"""
+    g = ctx.npgen(6)
+    old = Settings.get_atol()
+    for bname in ("1qubit", "qutrit"):
+        c, B = csys(bname)
+        d = c.dim
+        n = d * d
+        objs = []
+        for theta in (0.04, 0.01, 1e-3):
+            h = qobj.rand_hermitian(g, d); h = h / np.linalg.norm(h, 2)
+            w, v = np.linalg.eigh(h)
+            u = (v * np.exp(-1j * theta * w)) @ v.conj().T
+            hs = hs_unitary(B, u)
+            objs.append(dict(type="gate", arr=hs, m=None, design=dict(family=f"rotation by {theta}")))
+            objs.append(dict(type="mprocess", arr=[0.5 * hs, 0.5 * hs_unitary(B, np.eye(d))], m=2, design=dict(family=f"rotation by {theta} / 2")))
+            psi = np.zeros(d, dtype=complex); psi[0] = np.cos(theta); psi[1] = np.sin(theta)
+            objs.append(dict(type="state", arr=coeffs(B, np.outer(psi, psi.conj())), m=None, design=dict(family=f"pure state tilted by {theta}")))
+            p0 = np.outer(psi, psi.conj())
+            objs.append(dict(type="povm", arr=[coeffs(B, p0), coeffs(B, np.eye(d) - p0)], m=2, design=dict(family=f"projective POVM tilted by {theta}")))
+        for amp in (1e-4, 1e-6):
+            hs = np.eye(n); hs[n - 1, n - 1] += amp
+            objs.append(dict(type="gate", arr=hs, m=None, design=dict(family=f"amplification by {amp}")))
+            objs.append(dict(type="mprocess", arr=[0.5 * hs, 0.5 * np.eye(n)], m=2, design=dict(family=f"amplification by {amp} / 2")))
+        for o in objs:
+            o.update(basis=bname, c=c, B=B, onh0=True)
+            for atol in (1e-9, 1e-6):
+                o["atol"] = atol
+                rep = dict(rep_of(o, atol), kind="global-independence", global_atol=1e-3)
+                ctx.case(("global-independence", bname, o["type"], o["design"]["family"], atol), nontrivial=True)
+                try:
+                    obj = build(o)
+                    v0 = impl_verdicts(o, obj, atol)
+                    Settings.set_atol(1e-3)
+                    try:
+                        v1 = impl_verdicts(o, build(o), atol)
+                    finally:
+                        Settings.set_atol(old)
+                except Exception as e:  # noqa
+                    ctx.violate(f"C01/{CLSNAME[o['type']]}/explicit-atol-under-global-setting/raises", f"{type(e).__name__}: {e}", rep); continue
+                eqx, ineqx, det = expected(o, atol)
+                for k, want in (("eq", eqx), ("ineq", ineqx)):
+                    if v0[k] != v1[k] or (want is not None and v1[k] != want):
+                        nm = EQNAME[o["type"]] if k == "eq" else INEQNAME[o["type"]]
+                        ctx.violate(f"C01/{nm}/depends-on-global-atol",
+                                    f"{bname} {o['design']['family']}: verdict at explicit atol={atol:g} is {v0[k]} under the default global setting, "
+                                    f"{v1[k]} under Settings.set_atol(1e-3); definition {want} (min_eig={det.get('min_eig')})", rep)
+
+
 def check_bases(ctx):
     """the branch selector of gate.is_tp and the MProcess constructor guard, against the basis matrices themselves"""
     for bname in ("1qubit", "qutrit", "2qubit") + GENERIC:
@@ -1092,6 +1146,7 @@ def check_origin_generic(ctx):
 
 
 def oracle(ctx, volume=1):
+    check_global_independence(ctx)
     check_bases(ctx)
     check_origin_generic(ctx)
     check_constructor_variants(ctx)
@@ -1132,6 +1187,8 @@ def replay(ctx, data):
         check_origin(ctx, r["basis"], r["m"], ctx.npgen(3))
     elif r["kind"] == "basis":
         check_bases(ctx)
+    elif r["kind"] == "global-independence":
+        check_global_independence(ctx)
     elif r["kind"] == "origin-generic":
         check_origin_generic(ctx)
     elif r["kind"] == "ctor-variant":
